@@ -90,11 +90,15 @@ def oracle_arm(v, shared, shared_args, default_placeholder, wraps):
     return "            %s => { write!(want, \"%s\"%s%s).unwrap(); }" % (v.pat(), shared, (", " + shared_args) if shared_args else "", extra)
 
 
-def enum_shape(name, trait, attr, default_placeholder, variants, shared, shared_args, wraps, rename_all=None, quick=True, unwind=10):
+def enum_shape(name, trait, attr, default_placeholder, variants, shared, shared_args, wraps, rename_all=None, quick=True, unwind=10, generic=False):
     top = '#[%s("%s"%s)]\n' % (attr, shared, (", " + shared_args) if shared_args else "")
     if rename_all:
         top += '#[%s(rename_all = "%s")]\n' % (attr, rename_all)
     decl = "#[derive(derive_more::%s)]\n%spub enum E {\n%s\n}" % (trait, top, "\n".join(v.decl(attr) for v in variants))
+    if generic:
+        # the same enum over a type parameter (instantiated with Probe by inference): the impl must carry the bounds the rule needs
+        assert "Probe" in decl
+        decl = decl.replace("pub enum E {", "pub enum E<T> {").replace("Probe", "T")
     ctors = ["%d => %s" % (i, v.ctor()) for i, v in enumerate(variants)]
     ctors[-1] = "_ => " + variants[-1].ctor()
     arms = [oracle_arm(v, shared, shared_args, default_placeholder, wraps) for v in variants]
@@ -139,6 +143,10 @@ def shapes(tier):
         out.append(enum_shape("wrap_%s_a" % n, "Display", "display", "{}", mixed_a, lit, args, True, quick=k in (0, 1, 2, 3)))
         out.append(enum_shape("wrap_%s_b" % n, "Display", "display", "{}", mixed_b, lit, args, True, quick=k in (0, 2, 4)))
     out.append(enum_shape("wrap_with_field", "Display", "display", "{}", tuples, "{_variant}: {_0}", "", True))
+    # generic enums: attribute-less single-field variants under a wrapping / a default-only enum-level format (seed C07-wrapping-attrless-variant-bound-dropped)
+    out.append(enum_shape("wrap_brackets_generic_a", "Display", "display", "{}", mixed_a, "<{_variant}>", "", True, generic=True))
+    out.append(enum_shape("wrap_brackets_generic_b", "Display", "display", "{}", mixed_b, "<{_variant}>", "", True, generic=True))
+    out.append(enum_shape("default_text_generic_a", "Display", "display", "{}", mixed_a, "X", "", False, generic=True, quick=False))
     out.append(enum_shape("wrap_with_field_arg", "Display", "display", "{}", tuples, "{_variant} / {:?}", "_0", True, quick=False))
     out.append(enum_shape("wrap_rename_all", "Display", "display", "{}",
                           [V("FooBar", "unit", printed_name="foo_bar"), V("Single", "tuple", 1), V("BazQux", "unit", own="own")],
@@ -156,6 +164,7 @@ def shapes(tier):
     # other traits: the variant's own text uses the derived trait's placeholder
     hexv = [V("Single", "tuple", 1), V("Two", "tuple", 2, own="{_0:x}.{_1}"), V("Named", "named", 1)]
     out.append(enum_shape("wrap_brackets", "LowerHex", "lower_hex", "{:x}", hexv, "<{_variant}>", "", True))
+    out.append(enum_shape("wrap_brackets_generic", "LowerHex", "lower_hex", "{:x}", hexv, "<{_variant}>", "", True, generic=True))
     out.append(enum_shape("default_text", "LowerHex", "lower_hex", "{:x}", hexv, "X{{", "", False, quick=False))
     out.append(enum_shape("wrap_twice", "Octal", "octal", "{:o}", hexv, "{_variant}|{_variant}", "", True, quick=False))
     out.append(enum_shape("wrap_variant_only", "UpperExp", "upper_exp", "{:E}", hexv, "{_variant}", "", True, quick=False))
